@@ -301,6 +301,32 @@ func (x *Exec) runFrame(fr *frame) {
 					panic(pathEnd{"livelock"})
 				}
 			}
+			if sl := x.eng.cfg.SpinLimit; sl > 0 && x.schedState != nil && x.schedState.multi && x.cur != nil {
+				// read-only spin: the thread performs visible operations, but only READS of shared
+				// objects, and every other thread is finished or blocked on a condition that is
+				// false - nothing can ever change what it reads (round 9, C10-7)
+				if x.roThread != x.cur {
+					x.roThread, x.roSpin = x.cur, 0
+				}
+				x.roSpin++
+				if x.roSpin > sl/4 {
+					x.roSpin = 0
+					stuck := true
+					for _, th := range x.threads {
+						if th == x.cur || th.done {
+							continue
+						}
+						if th.blocked == nil || th.sleeping || th.wake || th.blocked() {
+							stuck = false
+							break
+						}
+					}
+					if stuck {
+						x.violate("livelock", fmt.Sprintf("livelock: %v executed more than %d instructions in which its only visible operations were reads of shared state, while every other thread is finished or blocked for good (spinning in %s)", x.cur, sl/4, fr.fn.String()), x.posOf(fr.curInstr))
+						panic(pathEnd{"livelock"})
+					}
+				}
+			}
 			if x.steps > x.eng.cfg.MaxSteps {
 				abortf("instruction budget %d exhausted (unwinding bound)", x.eng.cfg.MaxSteps)
 			}
